@@ -355,6 +355,13 @@ def spaces(tier, variant, seed):
         return sp
     # real rebuilds
     sp += battery_spaces(variant, 10 if quick else 2, cfgname=variant)
+    if variant.startswith("alloca-"):
+        # where TMP_FREE really frees (and the recording allocator poisons what is freed) the whole aliasing table runs unthinned: a result
+        # that still reads a temporary after TMP_FREE - typically only on an aliased call - differs from the distinct-variable result
+        from . import C05 as _c05
+        for s_ in _c05.spaces(tier, "pin", seed):
+            if s_.name == "alias_all_functions":
+                sp.append(Space("%s/C05/%s" % (variant, s_.name), s_.blocks, s_.cases, s_.one, s_.doc))
     if variant == "fat":
         def f_cases(blk):
             yield (0,)
